@@ -518,3 +518,90 @@ def filter_offsets_agree(crate):
         for k in ("calls_summarised", "calls_havoc", "calls_inlined"):
             ex.stats[k].update(ex2.stats[k])
     return P.finish(ex, res, ["decoded, non-empty range part", "encoded"])
+
+
+def load_in_memory_count(crate):
+    """C15: IndexStruct::load_in_memory (with InMemoryData::new): after a successful load the in-memory record count is
+    the count reported by FileIndex::get_records_headers (= records_count of the index file header = number of record
+    headers stored), and the loaded map is the one installed; a failed load leaves the index on disk."""
+    res = P.ObResult("load_in_memory_count")
+    fn = crate.method("IndexStruct", "load_in_memory")
+    res.functions = ["IndexStruct::load_in_memory (async body)", "InMemoryData::new"]
+    res.bounds = "one load, arbitrary count (< 2^40) and map (single-key model: queried key present or not, arbitrary number of other keys), every outcome of the callees"
+    from . import iters as IT
+
+    def h_values_fold(ex_, st_, frame, t, nf, args, dty):
+        v = args[0]
+        if isinstance(v, Obj) and "btree_map::Values" in (v.ty or ""):
+            # capacity bookkeeping over all per-key vectors: an arbitrary usize (records_allocated is not part of the claim)
+            return [(ex_.fresh(dty, st_, "alloc"), None)]
+        return IT.h_fold(ex_, st_, frame, t, nf, args, dty)
+    ex = P.mk_executor(crate, cap=3, loop_bound=4, inline=[r"^InMemoryData::new$"], extra_summaries=[(r"(^|::)fold$", h_values_fold)],
+                       havoc=[r"^<FileIndex as (\S*::)?FileIndexTrait<K>>::", r"^(std::collections::)?BTreeMap::values$", r"^(std::collections::btree_map::)?Values<.*>::fold$", r"^<.*Values<.*> as Iterator>::fold$"])
+    st = State()
+    fi = crate.field_index("IndexStruct", "inner")
+    idx = Obj("blob::index::core::IndexStruct<FileIndex, K>")
+    state = Obj("blob::index::core::State<FileIndex, K>")
+    state.discr = Sym(BV64(crate.enums["State"]["OnDisk"]), "isize")
+    idx.fields[(None, fi)] = state
+    ic = st.new_cell(idx)
+    count = z3.BitVec("file_records_count", 64)
+    st.pc.append(z3.ULT(count, BV64(1 << 40)))
+    the_map = {}
+
+    def hook(ex_, st_, name, fargs, out_ty, dty):
+        if "get_records_headers" in name:
+            r = ex_.fresh(out_ty, st_, "loaded")
+            tup = r.fields[("Ok", 0)]
+            m = Obj("BTreeMap<K, Vec<Header>>")
+            m.fields[("m", "present")] = Sym(z3.Bool("key_present"), "bool")
+            m.fields[("m", "others")] = Sym(z3.BitVec("other_keys", 64), "usize")
+            m.fields[("ghost", "id")] = Sym(BV64(4242), "u64")
+            tup.fields[(None, 0)] = m
+            tup.fields[(None, 1)] = Sym(count, "usize")
+            the_map["oid"] = m.oid
+            st_.events.append(("await", name, fargs, r))
+            return [(S.poll_ready(dty, r), None)]
+        return None
+    ex.await_hook = hook
+    outs = P.drive_async(ex, st, fn, [Ref(ic, (), True, "&mut IndexStruct<FileIndex, K>"), Obj("FileIndex"), Sym(z3.BitVec("blob_size", 64), "u64")])
+    res.paths = len(outs)
+    ST = crate.enums["State"]
+
+    def per_path(o, isok, payload):
+        evs = P.events_of(o)
+        loads = [e for e in evs if e[0] == "await" and "get_records_headers" in e[1]]
+        inner = o.mem[ic].fields[(None, fi)]
+        d = ex.get_discr(o, inner).t
+        if not loads:
+            return P.prove(ex, res, o, z3.Not(isok), "Ok => the headers were read from the index file")
+        lok = _ok(ex, o, loads[0][3])
+        if not P.prove(ex, res, o, z3.Implies(isok, lok), "Ok => get_records_headers succeeded"):
+            return False
+        if not P.prove(ex, res, o, z3.Implies(z3.Not(lok), z3.And(z3.Not(isok), d == BV64(ST["OnDisk"]))), "failed read: Err, index stays on disk"):
+            return False
+        lock = inner.fields.get(("InMemory", 0))
+        if lock is None:
+            return P.prove(ex, res, o, z3.Not(isok), "Ok => index is in memory")
+        data = lock.fields.get((None, 7000)) if isinstance(lock, Obj) else None
+        if data is None:
+            res.status = "inconclusive"; res.detail = "lock payload not modelled"; return False
+        mem = data.fields[(None, crate.field_index("InMemoryData", "mem"))]
+        rc = ex._get_field(o, mem, None, crate.field_index("MemoryAttrs", "records_count"), "usize").t
+        mp = data.fields[(None, crate.field_index("InMemoryData", "headers"))]
+        if not P.prove(ex, res, o, z3.Implies(isok, z3.And(d == BV64(ST["InMemory"]), rc == count)),
+                       "Ok => in memory with records_count = count stored in the index file"):
+            return False
+        if not P.prove(ex, res, o, z3.BoolVal(isinstance(mp, Obj) and mp.oid == the_map.get("oid")), "the installed map is the loaded one"):
+            return False
+        P.cover(ex, res, o, z3.And(isok, z3.UGT(count, BV64(2))), "loaded")
+        P.cover(ex, res, o, z3.And(z3.Not(isok), lok), "filters unreadable after the headers were loaded")
+        return True
+
+    from .ob_blob import _check_paths
+    _check_paths(ex, res, outs, per_path)
+    return P.finish(ex, res, ["loaded", "filters unreadable after the headers were loaded"])
+
+
+def _ok(ex, st, r):
+    return ex.get_discr(st, r).t == BV64(0)
